@@ -87,3 +87,7 @@ pub fn v_to_lowercase(s: &str) -> (r: String) ensures r@ == lower(s@) { s.to_low
 // R4c: String::from(X) -> v_string_from(X) (impl From<&str> for String cannot be given a specification: binder mismatch)
 #[verifier::external_body]
 pub fn v_string_from(s: &str) -> (r: String) ensures r@ == s@ { String::from(s) }
+// `let i: usize = match X.parse() {..}` -> v_parse_usize(&X) (declared per function with a subst directive)
+pub uninterp spec fn parse_usize_spec(s: Seq<char>) -> Option<usize>;
+#[verifier::external_body]
+pub fn v_parse_usize(s: &str) -> (r: Result<usize, ()>) ensures (r is Ok) == (parse_usize_spec(s@) is Some), r is Ok ==> r->Ok_0 == parse_usize_spec(s@)->0 { s.parse::<usize>().map_err(|_| ()) }
